@@ -85,10 +85,12 @@ def _run(job):
     from harness import lifedriver
     name, steps, seed = job
     try:
-        return name, lifedriver.execute(steps, sessions=("A", "B", "C"), seed=seed), None
+        so = []
+        recs = lifedriver.execute(steps, sessions=("A", "B", "C"), seed=seed, sched_out=so)
+        return name, recs, None, (so[0] if so else None)
     except BaseException:
         import traceback
-        return name, None, traceback.format_exc()[-1500:]
+        return name, None, traceback.format_exc()[-1500:], None
 
 def fn(ck, a):
     from harness import mailreplay
@@ -127,7 +129,9 @@ def fn(ck, a):
             results = pool.map(_run, jobs, chunksize=1)
         runs, names = [], []
         classes = set()
-        for name, recs, err in results:
+        from harness import schedsteps
+        schedsteps.validate(ck, [(name, so) for name, recs, err, so in results if so], tmp, label="run")
+        for name, recs, err, so in results:
             if err:
                 raise RuntimeError(f"harness failure in {name}: {err}")
             if recs:
